@@ -28,7 +28,8 @@ ASSUMPTIONS = [
 
 # "shared": consumers behind ONE shared pass-through adapter that fans out (Out >> Scale >> (In_a, In_b, ...)):
 # one direct target of the output, several registered consumers
-KINDS = ["direct", "scale", "next", "linear", "avg", "shared"]
+# "dlinear": Out >> DelayFixed(d) >> LinearTime >> In — the push-based adapter refreshes its buffer for an EARLIER time
+KINDS = ["direct", "scale", "next", "linear", "avg", "shared", "dlinear"]
 GAPS = [1, 2, 3, 5, 7, 1000, 999999, 1000000, 3600 * 10**6, 86400 * 10**6, 86400 * 10**6 + 1]
 
 
@@ -44,6 +45,12 @@ def _gen_case(rng, malformed):
     nops = rng.randint(4, 40)
     ops = []
     t = rng.choice([0, 0, 5, 86400 * 10**6])
+    if "dlinear" in consumers:
+        # the delayed adapter clamps to the link's info time (0): the first publication must be there
+        if malformed:
+            consumers = [("linear" if k == "dlinear" else k) for k in consumers]
+        else:
+            t = 0
     pubs = []
     last_req = [None] * nc
     if not malformed or rng.random() < 0.5:
@@ -79,9 +86,19 @@ def _gen_case(rng, malformed):
                 else:
                     r = rng.randint(lo, hi) if lo <= hi else lo
             ops.append(["pull", k, r])
+            if consumers[k] == "shared" and rng.random() < 0.5:
+                # the siblings behind the shared adapter ask for the very same time one after the other
+                for k2 in range(nc):
+                    if k2 != k and consumers[k2] == "shared" and (last_req[k2] is None or last_req[k2] <= r):
+                        ops.append(["pull", k2, r])
+                        if pubs[0] <= r <= pubs[-1]:
+                            last_req[k2] = r
             if pubs[0] <= r <= pubs[-1]:
                 last_req[k] = r if last_req[k] is None else (r if malformed else max(r, last_req[k]))
-    return {"consumers": consumers, "ops": ops}
+    case = {"consumers": consumers, "ops": ops}
+    if "dlinear" in consumers:
+        case["delay"] = rng.choice(gaps) * rng.choice([1, 2, 3])
+    return case
 
 
 CORPUS = [
@@ -93,6 +110,12 @@ CORPUS = [
     # exact midpoint and odd microsecond gaps (finding F8, fixed)
     {"consumers": ["direct"], "ops": [["push", 0], ["push", 5], ["pull", 0, 2], ["pull", 0, 3], ["push", 10], ["pull", 0, 7], ["pull", 0, 8]]},
     {"consumers": ["direct", "next"], "ops": [["push", 0], ["push", 4], ["pull", 0, 2], ["pull", 1, 4], ["push", 9], ["pull", 0, 9]]},
+    # lock-step siblings behind one shared adapter plus a direct consumer: history must still be released
+    {"consumers": ["shared", "shared", "direct"],
+     "ops": [x for d in range(0, 8) for x in (["push", d], ["pull", 0, d], ["pull", 1, d], ["pull", 2, d])]},
+    # a delayed push-based adapter is the slowest consumer
+    {"consumers": ["dlinear", "direct"], "delay": 3,
+     "ops": [x for d in range(0, 9) for x in (["push", d], ["pull", 1, d])] + [["pull", 0, 8]]},
     # two consumers with different paces behind one shared pass-through adapter
     {"consumers": ["shared", "shared"],
      "ops": [["push", d] for d in range(0, 7)] + [["pull", 0, 3], ["pull", 1, 1], ["pull", 1, 2], ["pull", 0, 6], ["pull", 1, 3], ["pull", 1, 6]]},
@@ -124,6 +147,11 @@ def run_impl(case):
                 out >> shared
             shared >> inp
             ada = shared
+        elif kind == "dlinear":
+            from datetime import timedelta
+            dl = fm.adapters.DelayFixed(timedelta(microseconds=case.get("delay", 3)))
+            ada = fm.adapters.LinearTime()
+            out >> dl >> ada >> inp
         else:
             ada = {"scale": lambda: fm.adapters.Scale(1.0), "next": fm.adapters.NextTime,
                    "linear": fm.adapters.LinearTime, "avg": fm.adapters.AvgOverTime}[kind]()
@@ -162,6 +190,7 @@ def run_impl(case):
 
     npush = 0
     user = []
+    marks = []  # after every user-level op: (number of boundary events so far, len(out.data))
     for op in case["ops"]:
         try:
             if op[0] == "push":
@@ -173,8 +202,9 @@ def run_impl(case):
                 user.append("ok")
         except Exception as e:  # noqa
             user.append(err_class(e))
+        marks.append([len(events), len(out.data)])
     kinds = ["adapter" if isinstance(k, fm.IAdapter) else "input" for k in keys]
-    return {"nkeys": len(keys), "key_kinds": kinds, "events": events, "user": user}
+    return {"nkeys": len(keys), "key_kinds": kinds, "events": events, "user": user, "marks": marks}
 
 
 def _ops_from_events(obs):
@@ -263,9 +293,43 @@ def _sim(obs):
     return fails, evicted, diverged
 
 
+def _user_level_bound(case, obs):
+    """The bound judged at the consumers' level: a consumer that reads the output directly or through pass-through
+    adapters has 'pulled' when ITS pull returned, whether or not the request reached the output (an adapter in
+    between must not swallow it).  Push-based adapters are consumers themselves (boundary events)."""
+    nk = obs["nkeys"]
+    if nk != len(case["consumers"]) or "marks" not in obs:
+        return None
+    direct = [k in ("direct", "scale", "shared") for k in case["consumers"]]
+    last = {}
+    pubs = []
+    ev = obs["events"]
+    seen = 0
+    for op, res, (nev, ln) in zip(case["ops"], obs["user"], obs["marks"]):
+        for e in ev[seen:nev]:
+            if e[0] == "push":
+                pubs.append(e[1])
+            elif e[3][0] == "ok" and e[1] < nk and not direct[e[1]]:
+                last[e[1]] = e[2]
+        seen = nev
+        if op[0] == "pull" and res == "ok" and direct[op[1]]:
+            if op[1] in last and op[2] < last[op[1]]:
+                return None  # outside the domain (decreasing requests)
+            last[op[1]] = op[2]
+            if len(last) == nk and pubs:
+                m = min(last.values())
+                bound = 1 + sum(1 for p in pubs if p > m)
+                if ln > bound:
+                    return (f"after consumer {op[1]} pulled t={op[2]}: every consumer has pulled (slowest at {m}) but "
+                            f"{ln} entries are retained > 1 + #publications newer than {m} = {bound}")
+    return None
+
+
 def monitor(case, obs):
     fails, _, _ = _sim(obs)
-    return fails[0] if fails else None
+    if fails:
+        return fails[0]
+    return _user_level_bound(case, obs)
 
 
 def nontrivial(case, obs):
